@@ -571,7 +571,8 @@ impl<'ast, 'res> Resolver<'ast, 'res> {
         for _ in 0..pending.len() {
             let mut changed = false;
             for pending_def in &pending {
-                let return_type = self.infer_function_return_type(pending_def.body);
+                let return_type =
+                    self.infer_function_return_type(pending_def.params, pending_def.body);
                 let current_scope = self
                     .function_scopes
                     .last_mut()
@@ -1367,9 +1368,19 @@ impl<'ast, 'res> Resolver<'ast, 'res> {
         }
     }
 
-    fn infer_function_return_type(&self, body: BlockRef<'ast>) -> ValueType {
+    fn infer_function_return_type(
+        &self,
+        params: ParamListRef<'ast>,
+        body: BlockRef<'ast>,
+    ) -> ValueType {
+        // This runs in the scope of the definition, before the body is checked. A name
+        // the function binds itself must not be typed as a same-named outer declaration.
+        let mut bound = Vec::new_in(self.arena);
+        bound.extend_from_slice(params.params);
+        Self::collect_bound_names(body, &mut bound);
+
         let mut return_types = Vec::new_in(self.arena);
-        self.collect_return_types(body, &mut return_types);
+        self.collect_return_types(body, &bound, &mut return_types);
 
         if return_types.is_empty() {
             return ValueType::Null;
@@ -1379,19 +1390,59 @@ impl<'ast, 'res> Resolver<'ast, 'res> {
         if return_types.iter().all(|t| *t == first_type) { first_type } else { ValueType::Dynamic }
     }
 
+    fn collect_bound_names(block: BlockRef<'ast>, bound: &mut Vec<&'ast str, &'res Arena>) {
+        for stmt in block.stmts {
+            match stmt {
+                Stmt::Assign { var, .. } => bound.push(var),
+                Stmt::FunctionDef { name, .. } => bound.push(name),
+                Stmt::If { then_b, else_b, .. } => {
+                    Self::collect_bound_names(then_b, bound);
+                    if let Some(eb) = else_b {
+                        Self::collect_bound_names(eb, bound);
+                    }
+                }
+                Stmt::Loop { body, .. } => Self::collect_bound_names(body, bound),
+                Stmt::Block { block, .. } => Self::collect_bound_names(block, bound),
+                _ => {}
+            }
+        }
+    }
+
+    fn expr_mentions(expr: ExprRef<'ast>, names: &[&'ast str]) -> bool {
+        match expr {
+            Expr::Var(name, ..) => names.contains(name),
+            Expr::Number(..) | Expr::Bool(..) | Expr::Null(..) | Expr::String { .. } => false,
+            Expr::Array { elements, .. } => elements.iter().any(|e| Self::expr_mentions(e, names)),
+            Expr::Index { array, index, .. } => {
+                Self::expr_mentions(array, names) || Self::expr_mentions(index, names)
+            }
+            Expr::Binary { lhs, rhs, .. } => {
+                Self::expr_mentions(lhs, names) || Self::expr_mentions(rhs, names)
+            }
+            Expr::Unary { expr, .. } => Self::expr_mentions(expr, names),
+            Expr::Member { object, .. } => Self::expr_mentions(object, names),
+            Expr::Call { callee, args, .. } => {
+                Self::expr_mentions(callee, names)
+                    || args.args.iter().any(|arg| Self::expr_mentions(arg, names))
+            }
+        }
+    }
+
     fn collect_return_types(
         &self,
         block: BlockRef<'ast>,
+        bound: &[&'ast str],
         return_types: &mut Vec<ValueType, &'res Arena>,
     ) {
         for stmt in block.stmts {
-            self.collect_return_types_from_stmt(stmt, return_types);
+            self.collect_return_types_from_stmt(stmt, bound, return_types);
         }
     }
 
     fn collect_return_types_from_stmt(
         &self,
         stmt: StmtRef<'ast>,
+        bound: &[&'ast str],
         return_types: &mut Vec<ValueType, &'res Arena>,
     ) {
         // Nested function bodies are intentionally excluded because their returns
@@ -1399,7 +1450,9 @@ impl<'ast, 'res> Resolver<'ast, 'res> {
         match stmt {
             Stmt::Return { expr, .. } => {
                 if let Some(expr_ref) = expr {
-                    if let Some(typ) = self.infer_expr_type(expr_ref) {
+                    if Self::expr_mentions(expr_ref, bound) {
+                        return_types.push(ValueType::Dynamic);
+                    } else if let Some(typ) = self.infer_expr_type(expr_ref) {
                         return_types.push(typ);
                     } else {
                         return_types.push(ValueType::Dynamic);
@@ -1409,16 +1462,16 @@ impl<'ast, 'res> Resolver<'ast, 'res> {
                 }
             }
             Stmt::If { then_b, else_b, .. } => {
-                self.collect_return_types(then_b, return_types);
+                self.collect_return_types(then_b, bound, return_types);
                 if let Some(eb) = else_b {
-                    self.collect_return_types(eb, return_types);
+                    self.collect_return_types(eb, bound, return_types);
                 }
             }
             Stmt::Loop { body, .. } => {
-                self.collect_return_types(body, return_types);
+                self.collect_return_types(body, bound, return_types);
             }
             Stmt::Block { block, .. } => {
-                self.collect_return_types(block, return_types);
+                self.collect_return_types(block, bound, return_types);
             }
             _ => {}
         }
